@@ -1,5 +1,6 @@
 """C20 - security-identifier check digits (CUSIP / SEDOL / ISIN)."""
 from ofxtools import utils, lib
+from sx.instrument import optimized_copy
 
 PID = "C20"
 CUSIP_ALPHA = "0-9A-Z*@#"
@@ -181,23 +182,72 @@ def h_isin(ctx, prefix, classes, history=0):
     ctx.check("ISIN with a changed check character fails validation", utils.validate_isin(base + x) is False)
 
 
-def h_isin_badprefix(ctx):
+def _lib(noassert):
+    """the library module, or the module as `python -O` loads it (assert statements compiled away)"""
+    return optimized_copy(utils) if noassert else utils
+
+
+def h_isin_badprefix(ctx, noassert=False):
     """two symbolic letters that are NOT a numbering agency + any body + any check char never validate"""
+    U = _lib(noassert)
     pfx = ctx.str("pfx", 2, ALNUM)
     ctx.assume(ctx.all([pfx != k for k in sorted(lib.NUMBERING_AGENCIES.keys())]))
     rest = ctx.str("rest", 10, ALNUM)
-    ctx.check("unknown country prefix never validates", utils.validate_isin(pfx + rest) is False)
+    ctx.check("unknown country prefix never validates", U.validate_isin(pfx + rest) is False)
 
 
-def h_wronglen(ctx, kind, n):
+def h_wronglen(ctx, kind, n, noassert=False):
+    U = _lib(noassert)
     s = ctx.str("s", n, CUSIP_ALPHA if kind == "cusip" else ALNUM)
     if kind == "cusip":
-        ctx.check("CUSIP of wrong length never validates", utils.validate_cusip(s) is False)
+        r = False
+        try:
+            r = U.validate_cusip(s)
+        except ValueError:
+            pass
+        ctx.check("CUSIP of wrong length never validates", r is False)
     else:
-        ctx.check("ISIN of wrong length never validates", utils.validate_isin(s) is False)
+        r = False
+        try:
+            r = U.validate_isin(s)
+        except ValueError:
+            pass
+        ctx.check("ISIN of wrong length never validates", r is False)
 
 
-HARNESSES = dict(cusip=h_cusip, cusip2isin=h_cusip2isin, sedol=h_sedol, isin=h_isin, isin_badprefix=h_isin_badprefix, wronglen=h_wronglen)
+def h_noassert_digits(ctx, kind, classes):
+    """the check-digit obligations with assert statements compiled away (python -O): computed digit, completed identifier
+    validates, changed check character fails"""
+    U = optimized_copy(utils)
+    if kind == "cusip":
+        base = split_str(ctx, "b", classes)
+        chk = U.cusip_checksum(base)
+        ctx.check("cusip check digit equals the published algorithm", chk == str(ref_cusip(ctx, base)))
+        ctx.check("completed CUSIP validates", U.validate_cusip(base + chk) is True)
+        x = ctx.str("x", 1, CUSIP_ALPHA)
+        ctx.assume(x != chk)
+        ctx.check("CUSIP with a changed check character fails validation", U.validate_cusip(base + x) is False)
+        isin = U.cusip2isin(base + chk)
+        ctx.check("cusip2isin embeds the CUSIP and validates", ctx.all([isin[2:11] == base + chk, U.validate_isin(isin) is True]))
+    elif kind == "sedol":
+        base = split_str(ctx, "b", classes)
+        chk = U.sedol_checksum(base)
+        ctx.check("sedol check digit equals the published algorithm", chk == str(ref_sedol(ctx, base)))
+        isin = U.sedol2isin(base + chk)
+        ctx.check("sedol2isin embeds the SEDOL and validates", ctx.all([isin[4:11] == base + chk, U.validate_isin(isin) is True]))
+    else:
+        pfx = ctx.enum("prefix", sorted(k for k in lib.NUMBERING_AGENCIES.keys() if len(k) == 2))
+        base = pfx + split_str(ctx, "b", classes)
+        chk = U.isin_checksum(base)
+        ctx.check("isin check digit equals the published algorithm (Luhn over the digit expansion)", chk == str(ref_isin(ctx, base)))
+        ctx.check("completed ISIN validates", U.validate_isin(base + chk) is True)
+        x = ctx.str("x", 1, ALNUM)
+        ctx.assume(x != chk)
+        ctx.check("ISIN with a changed check character fails validation", U.validate_isin(base + x) is False)
+
+
+HARNESSES = dict(cusip=h_cusip, cusip2isin=h_cusip2isin, sedol=h_sedol, isin=h_isin, isin_badprefix=h_isin_badprefix, wronglen=h_wronglen,
+                 noassert_digits=h_noassert_digits)
 
 META = dict(
     bounds=dict(cusip="8 symbolic chars over [0-9A-Z*@#]", sedol="6 symbolic chars over SEDOL consonants+digits",
@@ -272,6 +322,14 @@ def instances(tier, seed):
     mk("sedol[dddddd,history=300]", "sedol", dict(classes="dddddd", history=300))
     mk("isin[US,ddddddddd,history=300]", "isin", dict(prefix="US", classes="ddddddddd", history=300))
     mk("isin_badprefix", "isin_badprefix", {}, mode="fresh", wall_s=300)
+    # the interpreter run with -O / PYTHONOPTIMIZE (assert statements compiled away): nothing the property states may rest on an assert
+    mk("isin_badprefix[python -O]", "isin_badprefix", dict(noassert=True), mode="fresh", wall_s=300)
+    mk("noassert_digits[cusip,dddddddd]", "noassert_digits", dict(kind="cusip", classes="dddddddd"))
+    mk("noassert_digits[sedol,dddddd]", "noassert_digits", dict(kind="sedol", classes="dddddd"))
+    mk("noassert_digits[isin,ddddddddd]", "noassert_digits", dict(kind="isin", classes="ddddddddd"))
+    for n in (0, 8, 10, 11, 13):
+        mk(f"wronglen[cusip,{n},python -O]", "wronglen", dict(kind="cusip", n=n, noassert=True), mode="fresh", wall_s=60)
+        mk(f"wronglen[isin,{n},python -O]", "wronglen", dict(kind="isin", n=n, noassert=True), mode="fresh", wall_s=60)
     for n in range(0, 14):
         if n != 9:
             mk(f"wronglen[cusip,{n}]", "wronglen", dict(kind="cusip", n=n), mode="fresh", wall_s=60)
